@@ -9,14 +9,6 @@ def obligations(tier):
     for fl in (('mb', 'qsbr') if q else ('mb', 'memb', 'qsbr')):
         obs += gp('%s_1r' % fl, fl, ['updater', 'reader'], 2 if (q and fl == 'mb') else 3, faults=1, live=True, safe=False,
                   desc='%s: synchronize_rcu completes once the reader has left; futex waits may return spuriously / EINTR once; deadlock detector after every round' % fl)
-    if not q:
-      obs += gp('mb_1r_tso1', 'mb', ['updater', 'reader'], 3, tso=1, faults=1, live=True, safe=False,
-              desc='mb: the sleep/wake handshake (dec futex; mb; rescan  vs  store ctr; mb; load futex) under x86-TSO store buffers of depth 1')
-    if not q:
-        obs += gp('mb_2upd', 'mb', ['updater', 'reader', 'updater2'], 2, faults=1, live=True, safe=False,
-                  desc='mb: two concurrent synchronize_rcu callers (second may be merged and woken by the leader) and one reader')
-        obs += gp('mb_1r_enosys', 'mb', ['updater', 'reader'], 3, live=True, safe=False, futex_enosys=1,
-                  desc='mb: futex() returns ENOSYS, compat_futex_async fallback')
     return obs
 
 
